@@ -630,4 +630,37 @@ def goodGroups2 : Nat → List (List Cmd) → Bool
 /-- the wider fragment: every time group is a `GoodGroup2` -/
 def Tame2 (pr : Parsed) : Bool := goodGroups2 pr.npop (cmdGroups pr)
 
+/-! ## a third fragment: the moves of a group may form chains of pulses
+
+`GoodGroup` and `GoodGroup2` forbid a move out of a population that received lineages by an `-es` earlier in
+the group.  `from_ms` converts such a chain correctly when both moves end up as pulses — the graph applies the
+pulses of one time in the order the Builder wrote them, which is command order.  What matters is that the
+populations **joined** in the group (whose demes get their whole row of the lineage-movement matrix as
+ancestry, applied after all pulses) never receive lineages in the group, and that only populations that
+existed before the group are moved out of (a population created by an `-es` of the group has no row in the
+Builder's matrix; the `-ej` that immediately follows its `-es` is read with it as one admixture by `groupOps`
+and does not count).  Every time group `to_ms` writes for a graph whose pulse proportions are below 1 has this
+shape.  `GoodGroup3` has no clause about time 0. -/
+
+/-- every move has as its source a population that existed before the group -/
+def sourcesOld (n : Nat) (ops : List (Nat × Nat × Q)) : Bool := ops.all (fun o => decide (o.1 ≤ n))
+
+/-- no population joined in the group (the source of a move with `q = 1`) is the target of a move of the group -/
+def joinedNeverTarget (ops : List (Nat × Nat × Q)) : Bool :=
+  ops.all (fun o => decide (o.2.2 ≠ 1) || ops.all (fun o' => decide (o'.2.1 ≠ o.1)))
+
+/-- a time group (options of one time, command order; `n` populations exist before it) of the third fragment:
+on the moves `groupOps` reads off it, every source existed before the group (`sourcesOld`) and no population
+joined in the group is the target of a move (`joinedNeverTarget`); every `-es` has `0 < p ≤ 1` -/
+def GoodGroup3 (n : Nat) (cmds : List Cmd) : Bool :=
+  sourcesOld n (groupOps n cmds) && joinedNeverTarget (groupOps n cmds)
+  && cmds.all (fun c => match c with | .split _ _ p => decide (0 < p) && decide (p ≤ 1) | _ => true)
+
+def goodGroups3 : Nat → List (List Cmd) → Bool
+  | _, [] => true
+  | n, g :: rest => GoodGroup3 n g && goodGroups3 (n + (g.filter isSplitC).length) rest
+
+/-- the third fragment: every time group is a `GoodGroup3` -/
+def Tame3 (pr : Parsed) : Bool := goodGroups3 pr.npop (cmdGroups pr)
+
 end Demes.Spec.C08
